@@ -341,6 +341,10 @@ fn mirror_pure_p<E: Residual>(eos: &Arc<E>, p: Pressure, vs0: &State<E>, ls0: &S
     let ps = p.to_reduced();
     let mut passes = Vec::new();
     let (mut vs, mut ls) = (vs0.clone(), ls0.clone());
+    // `update_pressure(..)?.check_trivial_solution()?` (feos commit 0b8b65df)
+    if PhaseEquilibrium::is_trivial_solution(&vs, &ls) {
+        return (passes, "trivial".into(), None);
+    }
     for _ in 0..max_iter {
         let t = vs.temperature.to_reduced();
         let v = read_state(&vs);
@@ -370,7 +374,14 @@ fn mirror_pure_p<E: Residual>(eos: &Arc<E>, p: Pressure, vs0: &State<E>, ls0: &S
             }
         } else {
             match (State::new_pure(eos, tnew, Density::from_reduced(rho_v)), State::new_pure(eos, tnew, Density::from_reduced(rho_l))) {
-                (Ok(a), Ok(b)) => Some((a, b)),
+                (Ok(a), Ok(b)) => {
+                    // `.check_trivial_solution()?` of the Newton branch (feos commit 0b8b65df)
+                    if PhaseEquilibrium::is_trivial_solution(&a, &b) {
+                        passes.push(PpPass { t, v, l, dt, rho_v, rho_l, fallback, fb_margin, ratio: f64::NAN, accept: false });
+                        return (passes, "trivial".into(), None);
+                    }
+                    Some((a, b))
+                }
                 _ => None,
             }
         };
